@@ -1,40 +1,65 @@
-(** C29: the DATA-sending loop of twisted.web._http2.H2Connection (_sendPrioritisedData, writeDataToStream /
-    endRequest as far as they fill the per-stream queues, _handleWindowUpdate, _requestDone) over the window
-    bookkeeping the h2 library does for it (stream windows, connection window, SETTINGS_INITIAL_WINDOW_SIZE deltas,
-    max frame size).  Data is length-abstracted: a queued chunk is its length; [None] is the end-of-stream sentinel.
+(** C29: the DATA-sending machinery of twisted.web._http2.H2Connection / H2Stream over the window bookkeeping the
+    h2 library does for it:
+      _sendPrioritisedData (one iteration = [run_iter]; parked on _sendingDeferred when every stream is blocked),
+      writeDataToStream / endRequest (queue, unblock, wake a parked sender, flowControlBlocked),
+      _handleWindowUpdate (stream and connection level), H2Stream.windowUpdated / flowControlBlocked with a
+      registered push producer, _requestDone, SETTINGS_INITIAL_WINDOW_SIZE deltas (also below the bytes in flight),
+      SETTINGS_MAX_FRAME_SIZE.
+    Data is length-abstracted: a queued chunk is its length; [None] is the end-of-stream sentinel.
+    Applications are scripted: a static response (all chunks written and finished while the request is rendered), a
+    manual one (the history says when the next chunk is written and when the response is finished) or a push
+    producer that writes chunks of one size while it is not paused and finishes after the last one.
 
-    This is the model of the REPAIRED loop (fixes/C29-negative-window.patch): while the window of the chosen stream
-    is negative nothing is sent on it and the loop reschedules itself.  The code at the pinned commit takes a slice
-    with a negative bound when a SETTINGS frame has made the window negative (or tries to end the stream with an
-    empty DATA frame), h2 refuses with FlowControlError and the loop is never rescheduled (see design.d/C29.md).
-
-    The priority tree is an oracle: [adv_on i] serves stream [i]; [step _ Adv] uses the round-robin of the
-    vendor/priority shim.  Oracles not modelled: h2's framing and HPACK, header frames, the priority algorithm. *)
+    This is the model of the REPAIRED code: fix 1323982 (while the chosen stream's window is negative nothing is
+    sent and the loop reschedules itself) and fixes/C29-window-reopen-wakes-sender.patch (a WINDOW_UPDATE wakes a
+    parked sending loop; a SETTINGS_INITIAL_WINDOW_SIZE change is handled like a window update for all streams).  The priority tree is an oracle: [adv_on i] serves stream [i];
+    [run_iter] uses the round-robin of the vendor/priority shim.  Not modelled: h2's framing and HPACK, header
+    frames, the priority algorithm, transport back-pressure (_consumerBlocked), request bodies. *)
 From Coq Require Import List ZArith Bool Arith.
 Import ListNotations.
 Local Open Scope Z_scope.
 
 Record stream := mkS {
   sid : nat;
-  q : list (option Z);      (* _outboundStreamQueues[sid] *)
-  swin : Z;                 (* h2's outbound flow-control window of the stream *)
-  blocked : bool;           (* blocked in the priority tree *)
-  sent : Z;                 (* ghost: DATA bytes sent so far *)
-  body : Z                  (* ghost: bytes written by the application *)
+  q : list (option Z);
+  swin : Z;
+  blocked : bool;
+  sent : Z;
+  body : Z;
+  finished : bool;
+  hasprod : bool;
+  producing : bool;
+  pleft : nat;
+  pchunk : Z;
+  mleft : list Z
 }.
+
+Definition set_q (v : list (option Z)) (x : stream) : stream := mkS (sid x) v (swin x) (blocked x) (sent x) (body x) (finished x) (hasprod x) (producing x) (pleft x) (pchunk x) (mleft x).
+Definition set_swin (v : Z) (x : stream) : stream := mkS (sid x) (q x) v (blocked x) (sent x) (body x) (finished x) (hasprod x) (producing x) (pleft x) (pchunk x) (mleft x).
+Definition set_blocked (v : bool) (x : stream) : stream := mkS (sid x) (q x) (swin x) v (sent x) (body x) (finished x) (hasprod x) (producing x) (pleft x) (pchunk x) (mleft x).
+Definition set_sent (v : Z) (x : stream) : stream := mkS (sid x) (q x) (swin x) (blocked x) v (body x) (finished x) (hasprod x) (producing x) (pleft x) (pchunk x) (mleft x).
+Definition set_body (v : Z) (x : stream) : stream := mkS (sid x) (q x) (swin x) (blocked x) (sent x) v (finished x) (hasprod x) (producing x) (pleft x) (pchunk x) (mleft x).
+Definition set_finished (v : bool) (x : stream) : stream := mkS (sid x) (q x) (swin x) (blocked x) (sent x) (body x) v (hasprod x) (producing x) (pleft x) (pchunk x) (mleft x).
+Definition set_hasprod (v : bool) (x : stream) : stream := mkS (sid x) (q x) (swin x) (blocked x) (sent x) (body x) (finished x) v (producing x) (pleft x) (pchunk x) (mleft x).
+Definition set_producing (v : bool) (x : stream) : stream := mkS (sid x) (q x) (swin x) (blocked x) (sent x) (body x) (finished x) (hasprod x) v (pleft x) (pchunk x) (mleft x).
+Definition set_pleft (v : nat) (x : stream) : stream := mkS (sid x) (q x) (swin x) (blocked x) (sent x) (body x) (finished x) (hasprod x) (producing x) v (pchunk x) (mleft x).
+Definition set_pchunk (v : Z) (x : stream) : stream := mkS (sid x) (q x) (swin x) (blocked x) (sent x) (body x) (finished x) (hasprod x) (producing x) (pleft x) v (mleft x).
+Definition set_mleft (v : list Z) (x : stream) : stream := mkS (sid x) (q x) (swin x) (blocked x) (sent x) (body x) (finished x) (hasprod x) (producing x) (pleft x) (pchunk x) v.
 
 Inductive ev :=
 | EData (i : nat) (n sw cw mf : Z)   (* DATA frame of n bytes on stream i; ghost: stream window, connection window,
                                         max frame size just before sending *)
-| EEnd (i : nat) (snt bdy : Z).      (* END_STREAM on stream i; ghost: bytes sent, bytes written *)
+| EEnd (i : nat) (snt bdy : Z)       (* END_STREAM on stream i; ghost: bytes sent, bytes written *)
+| EPause (i : nat)                   (* producer.pauseProducing() of stream i *)
+| EResume (i : nat).                 (* producer.resumeProducing() of stream i, called by windowUpdated *)
 
 Record st := mk {
-  streams : list stream;    (* insertion order of the priority tree *)
+  streams : list stream;    (* insertion order of the priority tree and of H2Connection.streams *)
   cwin : Z;
   maxf : Z;
   iw : Z;                   (* the peer's SETTINGS_INITIAL_WINDOW_SIZE *)
   last : option nat;        (* scheduler state of the shim: stream served last *)
-  scheduled : bool;         (* a callLater(0, _sendPrioritisedData) is pending (false: parked on _sendingDeferred) *)
+  scheduled : bool;         (* a callLater(0, _sendPrioritisedData) is pending; false: parked on _sendingDeferred *)
   log : list ev             (* newest first *)
 }.
 
@@ -42,58 +67,81 @@ Inductive op :=
 | Adv                       (* the reactor runs the pending _sendPrioritisedData call *)
 | WU (target : nat) (inc : Z)   (* WINDOW_UPDATE; target 0 = connection *)
 | SetIW (v : Z)             (* SETTINGS_INITIAL_WINDOW_SIZE := v *)
-| SetMF (v : Z).            (* SETTINGS_MAX_FRAME_SIZE := v *)
+| SetMF (v : Z)             (* SETTINGS_MAX_FRAME_SIZE := v *)
+| AppWrite (i : nat)        (* the application of manual stream i writes its next chunk *)
+| AppFinish (i : nat).      (* the application of manual stream i calls request.finish() *)
+
+Definition set_streams (l : list stream) (s : st) : st := mk l (cwin s) (maxf s) (iw s) (last s) (scheduled s) (log s).
+Definition emit (e : ev) (s : st) : st := mk (streams s) (cwin s) (maxf s) (iw s) (last s) (scheduled s) (e :: log s).
 
 Definition upd_stream (i : nat) (f : stream -> stream) (l : list stream) : list stream :=
-  map (fun s => if Nat.eqb (sid s) i then f s else s) l.
+  map (fun x => if Nat.eqb (sid x) i then f x else x) l.
 Definition find_stream (i : nat) (l : list stream) : option stream :=
-  find (fun s => Nat.eqb (sid s) i) l.
+  find (fun x => Nat.eqb (sid x) i) l.
 Definition remove_stream (i : nat) (l : list stream) : list stream :=
-  filter (fun s => negb (Nat.eqb (sid s) i)) l.
+  filter (fun x => negb (Nat.eqb (sid x) i)) l.
+Definition upd (i : nat) (f : stream -> stream) (s : st) : st := set_streams (upd_stream i f (streams s)) s.
+
+Definition sum_data (l : list (option Z)) : Z :=
+  fold_right (fun c acc => match c with Some n => n + acc | None => acc end) 0 l.
+
+(** conn.local_flow_control_window(stream) and H2Connection.remainingOutboundWindow(stream) *)
+Definition locwin (cw : Z) (x : stream) : Z := Z.min (swin x) cw.
+Definition rem_out (cw : Z) (x : stream) : Z := locwin cw x - sum_data (q x).
+
+(** H2Stream.flowControlBlocked *)
+Definition flow_blocked (i : nat) (s : st) : st :=
+  match find_stream i (streams s) with
+  | Some x => if hasprod x && producing x then emit (EPause i) (upd i (set_producing false) s) else s
+  | None => s
+  end.
 
 (** the DATA frame length the loop chooses for the head chunk of stream y *)
 Definition frame_len (cw mf : Z) (y : stream) : Z :=
   match q y with
-  | Some n :: _ => Z.min n (Z.max 0 (Z.min mf (Z.min (swin y) cw)))
+  | Some n :: _ => Z.min n (Z.max 0 (Z.min mf (locwin cw y)))
   | _ => 0
   end.
 
-(** popleft, cut at the frame size, push the excess back, send_data *)
+(** popleft, cut at the frame size, push the excess back, send_data, block when the queue is empty *)
 Definition send_on (cw mf : Z) (y : stream) : stream :=
   match q y with
   | Some n :: rest =>
-      let mfs := Z.max 0 (Z.min mf (Z.min (swin y) cw)) in
+      let mfs := Z.max 0 (Z.min mf (locwin cw y)) in
       let n1 := Z.min n mfs in
       if Z.ltb 0 n1 then
         let rest1 := if Z.ltb mfs n then Some (n - mfs) :: rest else rest in
-        mkS (sid y) rest1 (swin y - n1) (match rest1 with [] => true | _ => blocked y end) (sent y + n1) (body y)
+        set_sent (sent y + n1) (set_blocked (match rest1 with [] => true | _ => blocked y end)
+          (set_swin (swin y - n1) (set_q rest1 y)))
       else y            (* nothing can be sent: the whole chunk is pushed back *)
   | _ => y
   end.
+
+Definition resched (i : nat) (s : st) : st := mk (streams s) (cwin s) (maxf s) (iw s) (Some i) true (log s).
 
 (** one iteration of _sendPrioritisedData serving stream i *)
 Definition adv_on (i : nat) (s : st) : st :=
   match find_stream i (streams s) with
   | None => s
   | Some x =>
-      if Z.ltb (Z.min (swin x) (cwin s)) 0 then
-        (* repaired: negative window (SETTINGS decrease) -- send nothing, not even END_STREAM; try again later *)
-        mk (streams s) (cwin s) (maxf s) (iw s) (Some i) true (log s)
+      if Z.ltb (locwin (cwin s) x) 0 then resched i s     (* negative window: wait (fix 1323982) *)
       else
       match q x with
-      | [] => s                                             (* the code would raise IndexError; unreachable *)
+      | [] => s                                             (* unreachable: an unblocked stream has a queue *)
       | None :: _ =>
           (* end_stream + _requestDone *)
-          mk (remove_stream i (streams s)) (cwin s) (maxf s) (iw s) (Some i) true
-             (EEnd i (sent x) (body x) :: log s)
+          resched i (emit (EEnd i (sent x) (body x)) (set_streams (remove_stream i (streams s)) s))
       | Some _ :: _ =>
           let n1 := frame_len (cwin s) (maxf s) x in
-          if Z.ltb 0 n1 then
-            mk (upd_stream i (send_on (cwin s) (maxf s)) (streams s))
-               (cwin s - n1) (maxf s) (iw s) (Some i) true
-               (EData i n1 (swin x) (cwin s) (maxf s) :: log s)
-          else
-            mk (streams s) (cwin s) (maxf s) (iw s) (Some i) true (log s)
+          let s1 := if Z.ltb 0 n1
+                    then mk (upd_stream i (send_on (cwin s) (maxf s)) (streams s)) (cwin s - n1) (maxf s) (iw s)
+                            (last s) (scheduled s) (EData i n1 (swin x) (cwin s) (maxf s) :: log s)
+                    else s in
+          let s2 := match find_stream i (streams s1) with
+                    | Some y => if Z.leb (rem_out (cwin s1) y) 0 then flow_blocked i s1 else s1
+                    | None => s1
+                    end in
+          resched i s2
       end
   end.
 
@@ -121,41 +169,154 @@ Definition pick (s : st) : option nat :=
   | None => None
   end.
 
+(** one call of _sendPrioritisedData *)
+Definition run_iter (s : st) : st :=
+  match pick s with
+  | Some i => adv_on i s
+  | None => mk (streams s) (cwin s) (maxf s) (iw s) (last s) false (log s)    (* DeadlockError: park *)
+  end.
+
+(** fire _sendingDeferred if the sender is parked *)
+Definition fire (s : st) : st := if scheduled s then s else run_iter s.
+
+(** the queue side of writeDataToStream / endRequest (nothing is ever queued behind the end sentinel) *)
+Definition app_chunk (n : Z) (y : stream) : stream :=
+  if finished y then y else set_body (body y + n) (set_q (q y ++ [Some n]) y).
+Definition app_end (y : stream) : stream :=
+  if finished y then y else set_blocked false (set_finished true (set_q (q y ++ [None]) y)).
+
+(** writeDataToStream *)
+Definition write_to (i : nat) (n : Z) (s : st) : st :=
+  match find_stream i (streams s) with
+  | None => s
+  | Some x0 =>
+      if finished x0 then s else
+      let s1 := upd i (app_chunk n) s in
+      let s2 := match find_stream i (streams s1) with
+                | Some x => if Z.ltb 0 (locwin (cwin s1) x) then fire (upd i (set_blocked false) s1) else s1
+                | None => s1
+                end in
+      match find_stream i (streams s2) with
+      | Some x => if Z.leb (rem_out (cwin s2) x) 0 then flow_blocked i s2 else s2
+      | None => s2
+      end
+  end.
+
+(** endRequest *)
+Definition end_req (i : nat) (s : st) : st :=
+  match find_stream i (streams s) with
+  | None => s
+  | Some x0 =>
+      if finished x0 then s else
+      fire (upd i app_end s)
+  end.
+
+(** the push producer: write chunks while not paused; after the last one unregister and finish *)
+Fixpoint prod_loop (fuel : nat) (i : nat) (s : st) : st :=
+  match fuel with
+  | O => s
+  | S f =>
+      match find_stream i (streams s) with
+      | Some x =>
+          if hasprod x && producing x then
+            match pleft x with
+            | O => s
+            | S k => prod_loop f i (write_to i (pchunk x) (upd i (set_pleft k) s))
+            end
+          else s
+      | None => s
+      end
+  end.
+
+Definition prod_run (i : nat) (s : st) : st :=
+  let fuel := match find_stream i (streams s) with Some x => S (pleft x) | None => O end in
+  let s1 := prod_loop fuel i s in
+  match find_stream i (streams s1) with
+  | Some x =>
+      if hasprod x && Nat.eqb (pleft x) 0
+      then end_req i (upd i (fun y => set_producing false (set_hasprod false y)) s1)
+      else s1
+  | None => s1
+  end.
+
+(** H2Stream.windowUpdated *)
+Definition window_updated (i : nat) (s : st) : st :=
+  match find_stream i (streams s) with
+  | Some x =>
+      if hasprod x && negb (producing x) && Z.ltb 0 (rem_out (cwin s) x)
+      then prod_run i (emit (EResume i) (upd i (set_producing true) s))
+      else s
+  | None => s
+  end.
+
+Definition unblock_if_queued (i : nat) (s : st) : st :=
+  upd i (fun y => match q y with [] => y | _ => set_blocked false y end) s.
+
+(** the stream-0 branch of _handleWindowUpdate:
+    for stream in self.streams.values(): stream.windowUpdated(); unblock it if it has queued data *)
+Definition conn_window_updated (s : st) : st :=
+  fold_left (fun acc i => unblock_if_queued i (window_updated i acc)) (map sid (streams s)) s.
+
 Definition step (s : st) (o : op) : st :=
   match o with
-  | Adv =>
-      if scheduled s then
-        match pick s with
-        | Some i => adv_on i s
-        | None => mk (streams s) (cwin s) (maxf s) (iw s) (last s) false (log s)    (* DeadlockError: park *)
-        end
-      else s
-  | WU O inc =>
-      mk (map (fun y => mkS (sid y) (q y) (swin y) (match q y with [] => blocked y | _ => false end)
-                            (sent y) (body y)) (streams s))
-         (cwin s + inc) (maxf s) (iw s) (last s) (scheduled s) (log s)
+  | Adv => if scheduled s then run_iter s else s
+  | WU O inc => fire (conn_window_updated (mk (streams s) (cwin s + inc) (maxf s) (iw s) (last s) (scheduled s) (log s)))
   | WU i inc =>
-      mk (upd_stream i (fun y => mkS (sid y) (q y) (swin y + inc)
-                                    (match q y with [] => blocked y | _ => false end) (sent y) (body y))
-                     (streams s))
-         (cwin s) (maxf s) (iw s) (last s) (scheduled s) (log s)
+      match find_stream i (streams s) with
+      | None => fire s
+      | Some _ => fire (window_updated i (unblock_if_queued i (upd i (fun y => set_swin (swin y + inc) y) s)))
+      end
   | SetIW v =>
-      mk (map (fun y => mkS (sid y) (q y) (swin y + (v - iw s)) (blocked y) (sent y) (body y)) (streams s))
-         (cwin s) (maxf s) v (last s) (scheduled s) (log s)
+      (* h2 shifts every stream window by the delta; _handleRemoteSettingsChanged then treats it as a window update
+         that applies to all streams *)
+      fire (conn_window_updated
+              (mk (map (fun y => set_swin (swin y + (v - iw s)) y) (streams s))
+                  (cwin s) (maxf s) v (last s) (scheduled s) (log s)))
   | SetMF v => mk (streams s) (cwin s) v (iw s) (last s) (scheduled s) (log s)
+  | AppWrite i =>
+      match find_stream i (streams s) with
+      | Some x => match mleft x with
+                  | [] => s
+                  | n :: r => if finished x then s else write_to i n (upd i (set_mleft r) s)
+                  end
+      | None => s
+      end
+  | AppFinish i =>
+      match find_stream i (streams s) with
+      | Some x => if hasprod x then s else end_req i s
+      | None => s
+      end
   end.
 
-Definition sum_data (l : list (option Z)) : Z :=
-  fold_right (fun c acc => match c with Some n => n + acc | None => acc end) 0 l.
+(** what the application of a stream does *)
+Inductive application :=
+| Static (chunks : list Z)          (* writes every chunk and finishes while the request is rendered *)
+| Manual (chunks : list Z)          (* writes / finishes when the history says so *)
+| Producer (chunk : Z) (n : nat).   (* push producer registered and started while the request is rendered *)
 
-(** all responses written and finished before the first Adv: stream k (id 2k+1) has the given chunk lengths *)
-Fixpoint mk_streams (k : nat) (w : Z) (bodies : list (list Z)) : list stream :=
-  match bodies with
-  | [] => []
-  | b :: r => mkS (2 * k + 1) (map Some b ++ [None]) w false 0 (sum_data (map Some b)) :: mk_streams (S k) w r
+(** the request for stream i arrives: inserted and blocked in the priority tree, then rendered *)
+Definition new_stream (i : nat) (w : Z) (a : application) : stream :=
+  match a with
+  | Static cs => mkS i [] w true 0 0 false false false O 0 cs
+  | Manual cs => mkS i [] w true 0 0 false false false O 0 cs
+  | Producer c n => mkS i [] w true 0 0 false true true n c []
   end.
 
-Definition init (w : Z) (bodies : list (list Z)) : st :=
-  mk (mk_streams 0 w bodies) 65535 16384 w None true [].
+Definition render (i : nat) (a : application) (s : st) : st :=
+  match a with
+  | Static cs => step (fold_left (fun acc _ => step acc (AppWrite i)) cs s) (AppFinish i)
+  | Manual _ => s
+  | Producer _ _ => prod_run i s
+  end.
 
-Definition run (w : Z) (bodies : list (list Z)) (ops : list op) : st := fold_left step ops (init w bodies).
+Fixpoint setup (k : nat) (apps : list application) (s : st) : st :=
+  match apps with
+  | [] => s
+  | a :: r =>
+      let i := (2 * k + 1)%nat in
+      setup (S k) r (render i a (set_streams (streams s ++ [new_stream i (iw s) a]) s))
+  end.
+
+Definition init (w : Z) (apps : list application) : st := setup 0 apps (mk [] 65535 16384 w None true []).
+
+Definition run (w : Z) (apps : list application) (ops : list op) : st := fold_left step ops (init w apps).
